@@ -70,7 +70,7 @@ func checkC17(w *World, r *Report) {
 			ast.Inspect(fd.Body, func(x ast.Node) bool {
 				if a2, ok := x.(*ast.AssignStmt); ok && len(a2.Lhs) == 1 && ro != nil && objOfIdent(p, a2.Lhs[0]) == ro {
 					if ix, ok := a2.Rhs[0].(*ast.IndexExpr); ok {
-						if f := fieldOfSel(p, ix.X); f != nil && f.Name() == "children" {
+						if f := fieldOfSel(p, ix.X); f != nil && nm(f) == "children" {
 							recvOK = true
 						}
 					}
@@ -174,7 +174,7 @@ func checkC17(w *World, r *Report) {
 		eff := NewEffects(w)
 		n := 0
 		for _, f := range allFuncs(w.SSAPkg("schema")) {
-			if f.Name() != "Validate" || f.Signature.Recv() == nil || f.Parent() != nil || len(f.Params) == 0 {
+			if nm(f) != "Validate" || f.Signature.Recv() == nil || f.Parent() != nil || len(f.Params) == 0 {
 				continue
 			}
 			if !strings.HasSuffix(w.Fset.Position(f.Pos()).Filename, "/tree.go") {
@@ -247,7 +247,7 @@ func checkC17(w *World, r *Report) {
 				n++
 				good := false
 				if ce, ok := as.Rhs[0].(*ast.CallExpr); ok {
-					if c := calleeOf(p, ce); c != nil && c.Name() == "Pathstr" && strings.HasSuffix(c.Pkg().Path(), "pathutil") {
+					if c := calleeOf(p, ce); c != nil && nm(c) == "Pathstr" && strings.HasSuffix(c.Pkg().Path(), "pathutil") {
 						// argument derives from the path parameter
 						ast.Inspect(ce.Args[0], func(y ast.Node) bool {
 							if id, ok := y.(*ast.Ident); ok && p.TypesInfo.Uses[id] == pathObj {
@@ -311,10 +311,10 @@ func c17Arms(w *World, r *Report) {
 				}
 			}
 			if call, ok := a.v.(*ssa.Call); ok {
-				if call.Call.IsInvoke() && call.Call.Method.Name() == "AllowIncompletePaths" && call.Call.Value == ssa.Value(ctxP) {
+				if call.Call.IsInvoke() && nm(call.Call.Method) == "AllowIncompletePaths" && call.Call.Value == ssa.Value(ctxP) {
 					return "inc"
 				}
-				if g := call.Call.StaticCallee(); g != nil && g.Name() == "Presence" {
+				if g := call.Call.StaticCallee(); g != nil && nm(g) == "Presence" {
 					return "presence"
 				}
 			}
@@ -322,14 +322,14 @@ func c17Arms(w *World, r *Report) {
 			if ld, ok := a.v.(*ssa.UnOp); ok && ld.Op == token.MUL {
 				if fa, ok := ld.X.(*ssa.FieldAddr); ok {
 					st := fa.X.Type().Underlying().(*types.Pointer).Elem().Underlying().(*types.Struct)
-					if st.Field(fa.Field).Name() == "presence" {
+					if nm(st.Field(fa.Field)) == "presence" {
 						return "presence"
 					}
 				}
 			}
 			if ex, ok := a.v.(*ssa.Extract); ok && ex.Index == 1 {
 				if ta, ok := ex.Tuple.(*ssa.TypeAssert); ok {
-					if n, ok := ta.AssertedType.(*types.Named); ok && n.Obj().Name() == "Empty" {
+					if n, ok := ta.AssertedType.(*types.Named); ok && nm(n.Obj()) == "Empty" {
 						return "etype"
 					}
 				}
@@ -345,7 +345,7 @@ func c17Arms(w *World, r *Report) {
 				nilCond = pcOrF(nilCond, row.cond)
 				continue
 			}
-			if call, ok := row.val.(*ssa.Call); ok && call.Call.IsInvoke() && call.Call.Method.Name() == "Validate" && len(call.Call.Args) == 3 {
+			if call, ok := row.val.(*ssa.Call); ok && call.Call.IsInvoke() && nm(call.Call.Method) == "Validate" && len(call.Call.Args) == 3 {
 				switch k {
 				case "leaf", "leafList":
 					deleg, delegCond = true, row.cond // Type().Validate(ctx, path, value)
@@ -371,7 +371,7 @@ func c17Arms(w *World, r *Report) {
 							if isNilConst(hrow.val) {
 								hnil = true
 							}
-							if hc, ok := hrow.val.(*ssa.Call); ok && hc.Call.IsInvoke() && hc.Call.Method.Name() == "Validate" && len(hc.Call.Args) == 3 {
+							if hc, ok := hrow.val.(*ssa.Call); ok && hc.Call.IsInvoke() && nm(hc.Call.Method) == "Validate" && len(hc.Call.Args) == 3 {
 								if sl, ok := hc.Call.Args[2].(*ssa.Slice); ok && sl.High == nil && sl.X == ssa.Value(hp) {
 									if one, ok := intConstOf(sl.Low); ok && one == 1 {
 										hd = true
